@@ -11,6 +11,13 @@
   What is modelled (code-shaped, bug for bug):
     psf_fread / psf_fwrite on virtual I/O   one callback, item count = bytes / width (a partial item is dropped,
                                             although the callback has consumed its bytes)
+    psf->file.seek_failed                   (round 8) set by a psf_fseek whose callback answers < 0, cleared by the next
+                                            psf_fseek that succeeds; while it is set psf_fwrite makes NO callback and
+                                            returns 0.  The latch is a function of the history: `seekFailed`.
+    whole_frames (sndfile.c, round 8)       a codec count that ends inside a frame is rounded down to whole frames and
+                                            psf->last_op is cleared (0: neither SFM_READ nor SFM_WRITE, modelled as
+                                            `Mode.rw`, the value a RDWR handle starts with): the next call seeks first.
+    The rules before the two repairs stay next to the new ones: `fwriteOld`, `readTailOld`, `writeTailOld`.
     codec loops                             `while (len > 0) { … if (count < bufferlen) break ; len -= count ; }`
                                             with the staging length of each (encoding, caller type) pair
     sf_read_* / sf_readf_* / sf_write_* / sf_writef_*, sf_seek, psf_default_seek (fc49efc, 9b1ea83 included)
@@ -73,8 +80,22 @@ def fread (o : Oracle) (hist : Hist) (width items : Nat) : List Byte × Nat × H
   ((call o hist (.read (width * items))).1.data, (call o hist (.read (width * items))).1.data.length / width,
    (call o hist (.read (width * items))).2)
 
-/-- `psf_fwrite (ptr, width, items)` on virtual I/O: (items = bytes accepted / width, history) -/
+/-- `psf->file.seek_failed`: the most recent psf_fseek of the history was answered with a negative value
+    (`psf->file.seek_failed = (absolute_position < 0)` in psf_fseek; nothing else touches the flag) -/
+def seekFailed : Hist → Bool
+  | [] => false
+  | (.seek _ _, a) :: _ => decide (a.n < 0)
+  | _ :: rest => seekFailed rest
+
+/-- `psf_fwrite (ptr, width, items)` on virtual I/O: (items = bytes accepted / width, history).
+    After a failed seek (`seekFailed`) nothing is handed to the callback. -/
 def fwrite (o : Oracle) (hist : Hist) (width items : Nat) (data : List Byte) : Nat × Hist :=
+  if width = 0 ∨ items = 0 then (0, hist) else
+  if seekFailed hist then (0, hist) else
+  ((call o hist (.write data)).1.n.toNat / width, (call o hist (.write data)).2)
+
+/-- psf_fwrite before the repair of KF-C15-HEADER-POSITION: it wrote wherever a failed seek had left the file -/
+def fwriteOld (o : Oracle) (hist : Hist) (width items : Nat) (data : List Byte) : Nat × Hist :=
   if width = 0 ∨ items = 0 then (0, hist) else
   ((call o hist (.write data)).1.n.toNat / width, (call o hist (.write data)).2)
 
@@ -218,8 +239,25 @@ structure Res where
   hist : Hist
   out : Out
 
+/-- `whole_frames (psf, count, channels)` of sndfile.c: the count the caller is told, and psf->last_op afterwards
+    (`op` when the count is whole frames; cleared -- `Mode.rw` = neither read nor write -- otherwise) -/
+def wholeFrames (count : Int) (ch : Nat) (op : Mode) : Int × Mode :=
+  if ch ≤ 1 ∨ count % ch = 0 then (count, op) else (count - count % ch, .rw)
+
 /-- the codec call and the end clamp of sf_read_* (after the guards and the optional seek) -/
 def readTail (o : Oracle) (h : H) (hist : Hist) (ty : Ty) (frameCall : Bool) (len : Int) : Res :=
+  let lp := readLoop o h.nb (stageLen h.enc ty false) len.toNat hist [] 0
+  let count : Int := lp.2.1
+  let vals := h.enc.decodeAll h.conv ty lp.1
+  let cr : Int × Int :=
+    if count ≤ (h.frames - h.rpos) * h.ch then (count, h.rpos + count / h.ch)
+    else ((h.frames - h.rpos) * h.ch, h.frames)
+  let wf := wholeFrames cr.1 h.ch .r
+  ⟨{ h with rpos := cr.2, lastOp := wf.2 }, lp.2.2,
+   { ret := if frameCall then wf.1 / h.ch else wf.1, err := 0, data := vals.take wf.1.toNat, hasData := true }⟩
+
+/-- sf_read_* before the repair of KF-C15-PARTIAL-FRAME: the codec's count went to the caller as it was -/
+def readTailOld (o : Oracle) (h : H) (hist : Hist) (ty : Ty) (frameCall : Bool) (len : Int) : Res :=
   let lp := readLoop o h.nb (stageLen h.enc ty false) len.toNat hist [] 0
   let count : Int := lp.2.1
   let vals := h.enc.decodeAll h.conv ty lp.1
@@ -258,6 +296,19 @@ def writeTail (o : Oracle) (h : H) (hist : Hist) (ty : Ty) (frameCall : Bool) (l
   let count : Int := lp.1
   let wpos := h.wpos + count / h.ch
   -- PEAK tracking runs once per staging round, before the round is written
+  let peak := peakUpdate h ty (vals.take lp.2.1)
+  let wf := wholeFrames count h.ch .w
+  ⟨{ h with haveWritten := true, wpos := wpos, lastOp := wf.2, peak := peak,
+            frames := if wpos > h.frames then wpos else h.frames,
+            dataend := if wpos > h.frames then 0 else h.dataend },
+   lp.2.2, { ret := if frameCall then wf.1 / h.ch else wf.1, err := 0 }⟩
+
+/-- sf_write_* before the repair of KF-C15-PARTIAL-FRAME -/
+def writeTailOld (o : Oracle) (h : H) (hist : Hist) (ty : Ty) (frameCall : Bool) (len : Int) (data : List Int) : Res :=
+  let vals := data.take len.toNat
+  let lp := writeLoop o h.nb (stageLen h.enc ty true) (h.enc.encodeAll h.conv ty vals) len.toNat hist 0 0
+  let count : Int := lp.1
+  let wpos := h.wpos + count / h.ch
   let peak := peakUpdate h ty (vals.take lp.2.1)
   ⟨{ h with haveWritten := true, wpos := wpos, lastOp := .w, peak := peak,
             frames := if wpos > h.frames then wpos else h.frames,
